@@ -386,7 +386,7 @@ impl Prop for C05 {
         let seeds: Vec<StrCase> = std::fs::read_dir(verif_dir().join("corpus").join("C05"))
             .map(|rd| rd.filter_map(|e| e.ok()).filter_map(|e| std::fs::read_to_string(e.path()).ok()).filter_map(|t| serde_json::from_str::<Value>(&t).ok()).filter_map(|v| serde_json::from_value(v["case"].clone()).ok()).collect())
             .unwrap_or_default();
-        let c = crate::fuzzrun::Campaign { name: "C05", runs_per_job: 250_000, jobs: 12, timeout_s: 25, seed };
+        let c = crate::fuzzrun::Campaign { name: "C05", target: "api", hooks: true, runs_per_job: 250_000, jobs: 12, timeout_s: 25, seed };
         match crate::fuzzrun::run(&c, &seeds) {
             Err(e) => {
                 eprintln!("harness error: fuzz campaign: {e}");
